@@ -163,9 +163,12 @@ package main
 //@ func (*OAuthProxy).ManualSignIn
 //@ prop C01
 //@ ensures[ok-only-if-validated] ret1 ==> called(Validate) && ret(Validate) && arg(Validate, 0) == ret0 && ret0 != ""
+//@ prop C19 C01
+//@ ensures[status-for-the-sign-in-page] ret2 == 200 || ret2 == 400 || ret2 == 401
 
 //@ func (*OAuthProxy).SignInPage
-//@ prop C13 C11
+//@ prop C13 C11 C19
+//@ requires[a-three-digit-status-code] 100 <= code && code <= 999
 //@ at call WriteHeader assert[page-only-after-cookie-cleared] ret(ClearSessionCookie) == nil
 //@ ensures[clear-failure-is-error-page] ret(ClearSessionCookie) != nil ==> called(ErrorPage) && !called(WriteSignInPage)
 
@@ -211,7 +214,7 @@ package main
 
 //@ func newValidatorImpl$1
 //@ nomod
-//@ prop C08
+//@ prop C08 C14 C01
 //@ ensures[empty-email-never-valid] email == "" ==> !valid
 //@ ensures[rule] email != "" ==> (valid <==> allowAll || ret(isEmailValidWithDomains) || (called(IsValid) && ret(IsValid)))
 //@ ensures[checks-the-lowercased-email] email != "" ==> arg(isEmailValidWithDomains, 0) == strings.ToLower(email)
@@ -468,3 +471,17 @@ package main
 //@ func NewUserMap$1
 //@ prop C20 C08
 //@ ensures[an-update-reloads-this-map] called(LoadAuthenticatedEmailsFile) && recv(LoadAuthenticatedEmailsFile) == um
+
+// ------------------------------------------------------------------ C05 / C04 / C07 / C01: start-up: how the configuration reaches validation
+// The structured ("alpha") file is decoded into an EMPTY object — a key the operator left out means the zero value (nonce check
+// on, no extra audiences, no headers), never a value left over from the core defaults — and then replaces the core sections.
+//@ func loadAlphaOptions
+//@ prop C05 C04 C07 C01
+//@ at call LoadYAML assert[decoded-into-an-empty-alpha-object] arg(LoadYAML, 1) == alphaOpts && arg(LoadYAML, 0) == alphaConfig
+//@     && len(alphaOpts.Providers) == 0 && len(alphaOpts.InjectRequestHeaders) == 0 && len(alphaOpts.InjectResponseHeaders) == 0
+//@     && len(alphaOpts.UpstreamConfig.Upstreams) == 0
+//@ at call MergeInto assert[merged-into-the-core-options-after-a-successful-decode] recv(MergeInto) == alphaOpts && arg(MergeInto, 1) == ret0(loadOptions)
+//@     && ret1(loadOptions) == nil && ret(LoadYAML) == nil
+//@ ensures[undecodable-configuration-is-an-error] (called(LoadYAML) && ret(LoadYAML) != nil) || ret1(loadOptions) != nil ==> ret1 != nil && ret0 == nil
+//@ ensures[the-merged-core-options-are-returned] ret1 == nil ==> called(MergeInto) && ret0 == ret0(loadOptions)
+
